@@ -598,7 +598,7 @@ func orchestrate(args []string) {
 		}
 		// (a report of the Go race detector is a proof by itself - the detector has no false positives - and the
 		// schedule of a free-running execution cannot be replayed: it is kept whatever the re-runs show)
-		if ok < 5 && v.Class != "process-death" && v.Class != "hang" && !strings.HasPrefix(v.Class, "data-race(go race detector") {
+		if ok < 5 && v.Class != "process-death" && v.Class != "hang" && !strings.HasPrefix(v.Class, "data-race(go race detector") && !strings.HasPrefix(v.Class, "hang(free-running") {
 			// not believed: a discrepancy that does not fail every time in a fresh process is set aside; if nothing
 			// else is confirmed the run ends without a verdict (exit 2), never with an alarm
 			fmt.Fprintf(os.Stderr, "verif: %s: discrepancy %s/%s reproduced only %d/5 times in a fresh process: set aside (replay=%s)\n", id, v.Oracle, v.Class, ok, p)
